@@ -138,6 +138,56 @@ def execute_relabel(case, t):
         t.mark_nontrivial({"v": v, "forms": [f[0] for f in forms], "switches": ce.n_switches(ref[0])})
 
 
+# ----------------------------------------------------------------------------- (2b) covariance floor at MRF reconstruction
+
+@st.composite
+def floor_case(draw):
+    return {"N": draw(st.integers(1, 3)), "W": draw(st.integers(1, 3)), "K": draw(st.integers(1, 3)),
+            "seed": draw(st.integers(0, 2 ** 32 - 1)), "v": draw(st.sampled_from([0.0, 1.0, 2.0, 3.0, 0.5, 0.125, 0.011, 0.11])),
+            "data_scale": draw(st.sampled_from([0.05, 0.1, 0.3]))}
+
+
+def _fit_with_floor(case, eps):
+    from fast_ticc import graphical_lasso
+    from fast_ticc.containers import arguments, model_state
+    rng = np.random.default_rng(case["seed"])
+    N, W, K = case["N"], case["W"], case["K"]
+    n = N * W
+    data = rng.normal(size=(40, n)) * case["data_scale"]        # small variances -> large diagonal precision entries
+    args = arguments.UserArguments(sparsity_weight=0.11, iteration_limit=1, label_switching_cost=1.0, min_cluster_size=2,
+                                   min_meaningful_covariance=eps, num_clusters=K, num_processors=1, window_size=W, biased_covariance=False)
+    ms = model_state.ModelState.empty_model(args, data)
+    ms.point_labels = [i % K for i in range(40)]
+    for k in range(K):
+        pts = data[k::K] @ (np.eye(n) + 0.3 * rng.normal(size=(n, n)))
+        ms.clusters[k].empirical_covariance = np.atleast_2d(np.cov(pts.T))
+        ms.clusters[k].stacked_data_mean = pts.mean(axis=0)
+    out = graphical_lasso.optimize_markov_random_fields(ms, data, e2e.SyncPool())
+    return [np.array(c.train_inverse, copy=True) for c in out.clusters]
+
+
+def execute_floor(case, t):
+    v = case["v"]
+    try:
+        ref = _fit_with_floor(case, float(v))
+    except np.linalg.LinAlgError:
+        t.discard("the floor makes an MRF singular: the library refuses in every form")
+    removed = sum(int(np.sum(m == 0.0)) for m in ref)
+    forms = scalar_forms(v)[1:]
+    for name, eps in forms:
+        try:
+            got = _fit_with_floor(case, eps)
+        except Exception as e:
+            raise Violation(f"covariance floor {v} given as {name} raised {type(e).__name__}: {str(e)[:120]}; as a Python float it is accepted")
+        for k, (a, b) in enumerate(zip(ref, got)):
+            if a.shape != b.shape or not np.array_equal(a, b) or not np.array_equal(a != 0, b != 0):
+                raise Violation(f"covariance floor {v} given as {name} gives a different MRF than the Python float "
+                                f"(cluster {k}: {int(np.sum(a == 0))} vs {int(np.sum(b == 0))} zero entries)")
+        t.cls(f"form_{name}")
+    if len(forms) >= 3 and removed and v > 0:
+        t.mark_nontrivial({"v": v, "forms": [f[0] for f in forms], "entries_removed": removed})
+
+
 # ----------------------------------------------------------------------------- (3) end to end
 
 @st.composite
@@ -209,6 +259,8 @@ SUBCHECKS = [
              budget={"quick": 160, "thorough": 6000}, shards={"quick": 8, "thorough": 16}, modes=["jit"], min_nontrivial_fraction=0.2),
     SubCheck(name="labelling_phase_beta_forms", strategy=relabel_case, execute=execute_relabel,
              budget={"quick": 120, "thorough": 6000}, shards={"quick": 2, "thorough": 8}, modes=["jit", "nojit"]),
+    SubCheck(name="covariance_floor_forms", strategy=floor_case, execute=execute_floor,
+             budget={"quick": 160, "thorough": 6000}, shards={"quick": 4, "thorough": 8}, modes=["jit"]),
     SubCheck(name="end_to_end_forms", strategy=e2e_case, execute=execute_e2e,
              budget={"quick": 64, "thorough": 2000}, shards={"quick": 16, "thorough": 8}, modes=E2E_MODES),
 ]
